@@ -117,7 +117,7 @@ pub proof fn lemma_plain_temp_blind(base: PathV, temp: PathV)
                                  ('ShardedCache', 'sharded_lookup(links, self.spec_root(), self.spec_n(), key)', 'self.wf()', 'self.configured_cfg(cfg)')):
         im = u.item('src/readonly.rs', ['impl ReadSide for ' + ty])
         gg = u.under_contract(im.sub(['fn get']), ['C13', 'C15', 'C11', 'C05', 'C18', 'C19', 'C16', 'C06', 'C20'])
-        gg.air = r'readonly::impl&%\d+::get'
+        gg.air = r'%s::Cache::get@readonly' % {'PlainCache': 'plain', 'ShardedCache': 'sharded'}[ty]
         gg.probe_ok = False
         gg.insert_before_tok(gg.fn_kw(),
                              'open spec fn lookup(&self, links: Map<PathV, InodeId>, key: Key) -> Option<InodeId> { %s }\n\n'
@@ -127,7 +127,7 @@ pub proof fn lemma_plain_temp_blind(base: PathV, temp: PathV)
         gg.add_param(W)
         gg.add_arg(ty + ' :: get', TW)
         tt = u.under_contract(im.sub(['fn touch']), ['C13', 'C15', 'C09', 'C05', 'C18', 'C16', 'C06', 'C20'])
-        tt.air = r'readonly::impl&%\d+::touch'
+        tt.air = r'%s::Cache::touch@readonly' % {'PlainCache': 'plain', 'ShardedCache': 'sharded'}[ty]
         tt.probe_ok = False
         tt.add_param(W)
         tt.add_arg(ty + ' :: touch', TW)
@@ -214,7 +214,7 @@ impl ReadOnlyCache {
     gs.add_arg('doit', TW, nth=-1)
     gs.contract(requires=[('', 'old(w).inv() && levels_wf(self.levels())')], ensures=stack_get_ensures('self.levels()', 'self.checker()'))
     d = u.under_contract(g.sub(['fn doit']), ['C13', 'C14', 'C15', 'C16', 'C05', 'C18', 'C19', 'C06', 'C20', 'C01', 'C11'])
-    d.air = 'readonly::ReadOnlyCache::get::doit'
+    d.air = r'readonly::impl&%\d+::get::doit'
     d.add_param(W)
     d.replace('checker ( prev , & mut hit )', 'checker.call(prev, &mut hit)', 'T7-checker-call')
     d.contract(requires=[('', 'old(w).inv() && levels_wf(stack@)')], ensures=stack_get_ensures('stack@', '(*checker)'))
@@ -271,7 +271,7 @@ impl ReadOnlyCache {
     ts.add_arg('doit', TW, nth=-1)
     ts.contract(requires=[('', 'old(w).inv() && levels_wf(self.levels())')], ensures=stack_touch_ensures('self.levels()'))
     td = u.under_contract(t.sub(['fn doit']), ['C13', 'C15', 'C16', 'C05', 'C18', 'C09', 'C06', 'C20'])
-    td.air = 'readonly::ReadOnlyCache::touch::doit'
+    td.air = r'readonly::impl&%\d+::touch::doit'
     td.add_param(W)
     td.contract(requires=[('', 'old(w).inv() && levels_wf(stack@)')], ensures=stack_touch_ensures('stack@'))
     td.desugar_for(0, itvar='kw_it', next_args='',
@@ -393,7 +393,7 @@ def weave_stack(u, u4):
         first = True
         for name in ('get', 'temp_dir', 'set', 'put', 'touch'):
             m = u.under_contract(im.sub(['fn ' + name]), ['C13', 'C11', 'C15', 'C16', 'C18', 'C05', 'C02', 'C03', 'C01', 'C12', 'C17'])
-            m.air = r'stack::impl&%\d+::' + name
+            m.air = r'%s::Cache::%s@stack' % ({'PlainCache': 'plain', 'ShardedCache': 'sharded'}[ty], name)
             m.probe_ok = False
             if first:
                 m.insert_before_tok(m.fn_kw(),
@@ -478,64 +478,91 @@ pub open spec fn read_copies_accepted(rs: ReadOnlyCache, links: Map<PathV, Inode
     ))
 }
 ''')
-    # the nested `doit` functions are extracted on their own (their generic one-call shims are dropped)
-    u.text('pub mod cache_get {\nuse super::*;\nuse crate::std;\n')
-    d = u.under_contract(u.item('src/stack.rs', ['impl Cache', 'fn get', 'fn doit']), ['C13', 'C14', 'C15', 'C16', 'C05', 'C18', 'C19', 'C01', 'C11', 'C06', 'C20'])
-    d.insert_before_tok(d.fn_kw(), 'pub ')
-    d.air = 'stack::cache_get::doit'
+    # The public API of Cache: each generic shim (specialised by T11) and its nested `doit`, both under contract.
+    imp = u.item('src/stack.rs', ['impl Cache'])
+    imp.drop_members_except({'get', 'touch', 'set', 'put', 'set_temp_file', 'put_temp_file'})
+    u.dropped.append("T11: `value: impl AsRef<Path>` / `value.as_ref()` in Cache::{set, put} are specialised to `&Path` / `value` (identity instantiation)")
+    API_PROPS = ['C13', 'C14', 'C15', 'C16', 'C05', 'C18', 'C19', 'C01', 'C11', 'C06', 'C20', 'C09', 'C03', 'C02']
+
+    def specialise(sh):
+        sh.replace("key : impl Into < Key < 'a > >", "key: Key<'a>", 'T11-into-identity')
+        sh.replace('key . into ( )', 'key', 'T11-into-identity')
+        if sh._find('value : impl AsRef < Path >', count=True):
+            sh.replace('value : impl AsRef < Path >', 'value: &Path', 'T11-into-identity')
+            sh.replace('value . as_ref ( )', 'value', 'T11-into-identity')
+        if sh._find('self . write_side . as_ref ( ) . map ( AsRef :: as_ref )', count=True):
+            sh.replace('self . write_side . as_ref ( ) . map ( AsRef :: as_ref )', 'opt_arc_as_ref(&self.write_side)', 'T2-rebind')
+        sh.add_param(W)
+        sh.add_arg('doit', TW, nth=-1)
+
+    def get_contract(wopt, rs, ck_some, ck_val):
+        ws = wopt + '.unwrap()'
+        return dict(
+            requires=[('', 'old(w).inv() && levels_wf(%s.levels()) && (%s.is_some() ==> %s.level_wf())' % (rs, wopt, ws))],
+            ensures=[
+                ('C02 C18:valid-on-every-exit', 'final(w).inv()'),
+                ('', 'final(w).kept(*old(w)) && final(w).listed == old(w).listed && final(w).published == old(w).published'),
+                ('C15 C09:a-lookup-changes-nothing-but-access-times', 'final(w).atime_only(*old(w))'),
+                ('C16:invalid-names-fail-with-invalid-input-and-touch-nothing',
+                 '(%s.is_some() || %s.levels().len() > 0) && !first_byte_ok(str_bytes(key.name)) ==> r.is_err() && err_kind(err_of(r)) == ErrorKind::InvalidInput && *final(w) == *old(w)' % (wopt, rs)),
+                ('C13 C19 C01:the-write-cache-is-consulted-first-and-its-copy-returned-read-only-at-offset-zero',
+                 'r.is_ok() && %s.is_some() && %s.lookup(old(w).files, key).is_some() ==> r.unwrap().is_some() && r.unwrap().unwrap().ino() == %s.lookup(old(w).files, key).unwrap() '
+                 '&& !r.unwrap().unwrap().can_write() && r.unwrap().unwrap().offset() == 0' % (wopt, ws, ws)),
+                ('C14:a-write-side-hit-is-checked-against-every-read-only-copy',
+                 'r.is_ok() && %s.is_some() && %s.lookup(old(w).files, key).is_some() && %s ==> read_copies_accepted(%s, old(w).files, key, %s, %s.lookup(old(w).files, key).unwrap())' % (wopt, ws, ck_some, rs, ck_val, ws)),
+                ('C13 C14 C19:otherwise-the-first-read-only-copy-is-returned',
+                 'r.is_ok() && r.unwrap().is_some() && !(%s.is_some() && %s.lookup(old(w).files, key).is_some()) ==> !r.unwrap().unwrap().can_write() && r.unwrap().unwrap().offset() == 0 '
+                 '&& exists|idx: int| #[trigger] first_copy(%s.levels(), old(w).files, key, idx, r.unwrap().unwrap().ino()) '
+                 '&& (%s.checker().is_some() ==> later_copies_accepted(%s.levels(), old(w).files, key, %s.checker().unwrap(), r.unwrap().unwrap().ino(), idx, %s.levels().len() as int))' % (wopt, ws, rs, rs, rs, rs, rs)),
+                ('C13 C05 C18:a-miss-means-no-copy-anywhere',
+                 'r.is_ok() && r.unwrap().is_none() ==> no_read_copy(%s, old(w).files, key) && (%s.is_some() ==> %s.lookup(old(w).files, key).is_none())' % (rs, wopt, ws)),
+                ('C06 C20:at-most-two-opens-per-directory', 'final(w).opens <= old(w).opens + 2 + 2 * %s.levels().len()' % rs),
+                ('C16:success-means-the-name-is-a-valid-key', 'r.is_ok() && (%s.is_some() || %s.levels().len() > 0) ==> valid_key(str_bytes(key.name))' % (wopt, rs)),
+                ('C01:a-hit-holds-bytes-some-writer-supplied-for-exactly-this-key',
+                 'r.is_ok() && r.unwrap().is_some() && (%s.is_some() ==> %s.rw(old(w).cfg())) && levels_configured(%s.levels(), old(w).cfg()) ==> '
+                 'final(w).inodes.contains_key(r.unwrap().unwrap().ino()) && final(w).supplied.contains((str_bytes(key.name), final(w).inodes[r.unwrap().unwrap().ino()].content))' % (wopt, ws, rs)),
+            ])
+
+    sh = u.under_contract(imp.sub(['fn get']), API_PROPS)
+    sh.air = 'stack::Cache::get'
+    specialise(sh)
+    sh.contract(**get_contract('self.writer()', 'self.readers()', 'self.checker().is_some()', 'self.checker().unwrap()'))
+    d = u.under_contract(sh.sub(['fn doit']), API_PROPS)
+    d.air = r'stack::impl&%\d+::get::doit'
     d.add_param(W)
     d.replace('checker ( & mut ret , & mut read_hit )', 'checker.call(&mut ret, &mut read_hit)', 'T7-checker-call')
     d.thread(['write . get', 'read_side . get', '. seek'])
-    WS = 'write_side.unwrap()'
-    d.contract(
-        requires=[('', 'old(w).inv() && levels_wf(read_side.levels()) && (write_side.is_some() ==> write_side.unwrap().level_wf())')],
-        ensures=[
-            ('C02 C18:valid-on-every-exit', 'final(w).inv()'),
-            ('', 'final(w).kept(*old(w)) && final(w).listed == old(w).listed && final(w).published == old(w).published'),
-            ('C15 C09:a-lookup-changes-nothing-but-access-times', 'final(w).atime_only(*old(w))'),
-            ('C16:invalid-names-fail-with-invalid-input-and-touch-nothing',
-             '(write_side.is_some() || read_side.levels().len() > 0) && !first_byte_ok(str_bytes(key.name)) ==> r.is_err() && err_kind(err_of(r)) == ErrorKind::InvalidInput && *final(w) == *old(w)'),
-            ('C13 C19 C01:the-write-cache-is-consulted-first-and-its-copy-returned-read-only-at-offset-zero',
-             'r.is_ok() && write_side.is_some() && %s.lookup(old(w).files, key).is_some() ==> r.unwrap().is_some() && r.unwrap().unwrap().ino() == %s.lookup(old(w).files, key).unwrap() '
-             '&& !r.unwrap().unwrap().can_write() && r.unwrap().unwrap().offset() == 0' % (WS, WS)),
-            ('C14:a-write-side-hit-is-checked-against-every-read-only-copy',
-             'r.is_ok() && write_side.is_some() && %s.lookup(old(w).files, key).is_some() && checker.is_some() ==> read_copies_accepted(*read_side, old(w).files, key, *checker.unwrap(), %s.lookup(old(w).files, key).unwrap())' % (WS, WS)),
-            ('C13 C14 C19:otherwise-the-first-read-only-copy-is-returned',
-             'r.is_ok() && r.unwrap().is_some() && !(write_side.is_some() && %s.lookup(old(w).files, key).is_some()) ==> !r.unwrap().unwrap().can_write() && r.unwrap().unwrap().offset() == 0 '
-             '&& exists|idx: int| #[trigger] first_copy(read_side.levels(), old(w).files, key, idx, r.unwrap().unwrap().ino()) '
-             '&& (read_side.checker().is_some() ==> later_copies_accepted(read_side.levels(), old(w).files, key, read_side.checker().unwrap(), r.unwrap().unwrap().ino(), idx, read_side.levels().len() as int))' % WS),
-            ('C13 C05 C18:a-miss-means-no-copy-anywhere',
-             'r.is_ok() && r.unwrap().is_none() ==> no_read_copy(*read_side, old(w).files, key) && (write_side.is_some() ==> %s.lookup(old(w).files, key).is_none())' % WS),
-            ('C06 C20:at-most-two-opens-per-directory', 'final(w).opens <= old(w).opens + 2 + 2 * read_side.levels().len()'),
-            ('C16:success-means-the-name-is-a-valid-key', 'r.is_ok() && (write_side.is_some() || read_side.levels().len() > 0) ==> valid_key(str_bytes(key.name))'),
-            ('C01:a-hit-holds-bytes-some-writer-supplied-for-exactly-this-key',
-             'r.is_ok() && r.unwrap().is_some() && (write_side.is_some() ==> %s.rw(old(w).cfg())) && levels_configured(read_side.levels(), old(w).cfg()) ==> '
-             'final(w).inodes.contains_key(r.unwrap().unwrap().ino()) && final(w).supplied.contains((str_bytes(key.name), final(w).inodes[r.unwrap().unwrap().ino()].content))' % WS),
-        ])
+    d.contract(**get_contract('write_side', '(*read_side)', 'checker.is_some()', '*checker.unwrap()'))
     d.insert_after('if let Some ( write ) = write_side {',
                    '\n                let ghost w0 = *w;\n                proof { assert forall|a: World, b: World| #[trigger] a.atime_only(w0) && #[trigger] b.atime_only(a) implies b.atime_only(w0) by { lemma_atime_only_trans(w0, a, b); } }')
-    u.text('}\npub mod cache_touch {\nuse super::*;\nuse crate::std;\n')
-    td = u.under_contract(u.item('src/stack.rs', ['impl Cache', 'fn touch', 'fn doit']), ['C13', 'C15', 'C16', 'C05', 'C18', 'C09', 'C06', 'C20'])
-    td.insert_before_tok(td.fn_kw(), 'pub ')
-    td.air = 'stack::cache_touch::doit'
+
+    def touch_contract(wopt, rs):
+        ws = wopt + '.unwrap()'
+        return dict(
+            requires=[('', 'old(w).inv() && levels_wf(%s.levels()) && (%s.is_some() ==> %s.level_wf())' % (rs, wopt, ws))],
+            ensures=[
+                ('C02 C18:valid-on-every-exit', 'final(w).inv()'),
+                ('', 'final(w).kept(*old(w)) && final(w).listed == old(w).listed && final(w).published == old(w).published'),
+                ('C15 C09:a-touch-changes-nothing-but-access-times', 'final(w).atime_only(*old(w))'),
+                ('C13 C09:the-write-cache-copy-is-marked-first',
+                 'r.is_ok() && %s.is_some() && %s.lookup(old(w).files, key).is_some() ==> r.unwrap() '
+                 '&& final(w).inodes[%s.lookup(old(w).files, key).unwrap()].atime >= final(w).inodes[%s.lookup(old(w).files, key).unwrap()].mtime' % (wopt, ws, ws, ws)),
+                ('C13 C05 C18:false-means-no-copy-anywhere',
+                 'r == Ok::<bool, Error>(false) ==> no_read_copy(%s, old(w).files, key) && (%s.is_some() ==> %s.lookup(old(w).files, key).is_none())' % (rs, wopt, ws)),
+                ('C18 C05:error-is-an-invalid-name-or-a-real-fault', 'r.is_err() ==> %s || final(w).hard_faults > old(w).hard_faults' % BAD),
+            ])
+
+    ts = u.under_contract(imp.sub(['fn touch']), API_PROPS)
+    ts.air = 'stack::Cache::touch'
+    specialise(ts)
+    ts.contract(**touch_contract('self.writer()', 'self.readers()'))
+    td = u.under_contract(ts.sub(['fn doit']), API_PROPS)
+    td.air = r'stack::impl&%\d+::touch::doit'
     td.add_param(W)
     td.thread(['write . touch', 'read_side . touch'])
-    td.contract(
-        requires=[('', 'old(w).inv() && levels_wf(read_side.levels()) && (write_side.is_some() ==> write_side.unwrap().level_wf())')],
-        ensures=[
-            ('C02 C18:valid-on-every-exit', 'final(w).inv()'),
-            ('', 'final(w).kept(*old(w)) && final(w).listed == old(w).listed && final(w).published == old(w).published'),
-            ('C15 C09:a-touch-changes-nothing-but-access-times', 'final(w).atime_only(*old(w))'),
-            ('C13 C09:the-write-cache-copy-is-marked-first',
-             'r.is_ok() && write_side.is_some() && %s.lookup(old(w).files, key).is_some() ==> r.unwrap() '
-             '&& final(w).inodes[%s.lookup(old(w).files, key).unwrap()].atime >= final(w).inodes[%s.lookup(old(w).files, key).unwrap()].mtime' % (WS, WS, WS)),
-            ('C13 C05 C18:false-means-no-copy-anywhere',
-             'r == Ok::<bool, Error>(false) ==> no_read_copy(*read_side, old(w).files, key) && (write_side.is_some() ==> %s.lookup(old(w).files, key).is_none())' % WS),
-            ('C18 C05:error-is-an-invalid-name-or-a-real-fault', 'r.is_err() ==> %s || final(w).hard_faults > old(w).hard_faults' % BAD),
-        ])
+    td.contract(**touch_contract('write_side', '(*read_side)'))
     td.insert_after('if let Some ( write ) = write_side {',
                     '\n                let ghost w0 = *w;\n                proof { assert forall|a: World, b: World| #[trigger] a.atime_only(w0) && #[trigger] b.atime_only(a) implies b.atime_only(w0) by { lemma_atime_only_trans(w0, a, b); } }')
-    u.text('}\n')
     # ---- publishing helpers (C03 C19) -------------------------------------------------------------
     u.text('use crate::tempfile;\nuse crate::tempfile::NamedTempFile;\n')
     INV = ('C02 C18:valid-on-every-exit', 'final(w).inv()')
@@ -638,34 +665,39 @@ pub open spec fn read_copies_accepted(rs: ReadOnlyCache, links: Map<PathV, Inode
         m.thread(['write . ' + op])
         m.contract(requires=IMPL_REQ, ensures=impl_ens(WS, op))
 
-    # set::doit / put::doit (path variants: flush first) and the temp-file variants (finalize first)
-    TW_ = 'this.writer().unwrap()'
+    # set / put (path variants: flush first) and the temp-file variants (finalize first): shim and nested doit
     for op, variant in (('set', 'path'), ('put', 'path'), ('set_temp_file', 'temp'), ('put_temp_file', 'temp')):
-        u.text('pub mod cache_%s {\nuse super::*;\nuse crate::std;\n' % op)
-        d = u.under_contract(u.item('src/stack.rs', ['impl Cache', 'fn ' + op, 'fn doit']), ['C03', 'C19', 'C13', 'C15', 'C16', 'C18', 'C11', 'C01', 'C05', 'C02'])
-        d.insert_before_tok(d.fn_kw(), 'pub ')
-        d.air = 'stack::cache_%s::doit' % op
+        def wcontract(this):
+            TW_ = this + '.writer().unwrap()'
+            VAL = 'pv(value)' if variant == 'path' else 'value.pathv()'
+            req = [('', 'old(w).inv() && old(w).must_sync == %s.syncs() && levels_wf(%s.readers().levels()) && (%s.writer().is_some() ==> %s.level_wf() && %s.rw(old(w).cfg()))' % (this, this, this, TW_, TW_)),
+                   ('C01:caller-hands-in-a-private-finished-file-supplied-for-this-key',
+                    'valid_key(str_bytes(key.name)) ==> old(w).value_ok(%s, str_bytes(key.name), false)' % VAL)]
+            if variant == 'temp':
+                req.append(('', 'old(w).files.contains_key(value.pathv()) && old(w).files[value.pathv()] == value.ino() && old(w).inodes.contains_key(value.ino())'))
+            ens = [
+                INV, ('', 'final(w).kept_nc(*old(w))'),
+                ('C13:without-a-write-cache-nothing-is-published', '%s.writer().is_none() ==> r.is_err() && final(w).published == old(w).published && final(w).dirs == old(w).dirs' % this),
+                ('C11 C18:success-consumes-the-source', 'r.is_ok() ==> old(w).files.contains_key(%s) && !final(w).files.contains_key(%s)' % (VAL, VAL)),
+                ('C13 C11:success-means-a-publication-happened' + ('' if op.startswith('set') else '-unless-the-key-was-already-bound'),
+                 'r.is_ok() ==> final(w).published > old(w).published' + ('' if op.startswith('set') else ' || %s.lookup(old(w).files, key).is_some()' % TW_)),
+                ('C18 C05:error-is-explained',
+                 'r.is_err() ==> %s.writer().is_none() || %s || final(w).hard_faults > old(w).hard_faults || !final(w).files.contains_key(%s) || !old(w).files.contains_key(%s)' % (this, BADK, VAL, VAL)),
+            ]
+            return dict(requires=req, ensures=ens)
+        sh = u.under_contract(imp.sub(['fn ' + op]), API_PROPS)
+        sh.air = 'stack::Cache::' + op
+        specialise(sh)
+        sh.contract(**wcontract('self'))
+        d = u.under_contract(sh.sub(['fn doit']), API_PROPS)
+        d.air = r'stack::impl&%%\d+::%s::doit' % op
         d.add_param(W)
-        VAL = 'pv(value)' if variant == 'path' else 'value.pathv()'
-        req = [('', 'old(w).inv() && old(w).must_sync == this.syncs() && (this.writer().is_some() ==> %s.level_wf() && %s.rw(old(w).cfg()))' % (TW_, TW_)),
-               ('C01:caller-hands-in-a-private-finished-file-supplied-for-this-key',
-                'valid_key(str_bytes(key.name)) ==> old(w).value_ok(%s, str_bytes(key.name), false)' % VAL)]
-        if variant == 'temp':
-            req.append(('', 'old(w).files.contains_key(value.pathv()) && old(w).files[value.pathv()] == value.ino() && old(w).inodes.contains_key(value.ino())'))
-        ens = [
-            INV, ('', 'final(w).kept_nc(*old(w))'),
-            ('C13:without-a-write-cache-nothing-is-published', 'this.writer().is_none() ==> r.is_err() && final(w).published == old(w).published && final(w).dirs == old(w).dirs'),
-            ('C11 C18:success-consumes-the-source', 'r.is_ok() ==> old(w).files.contains_key(%s) && !final(w).files.contains_key(%s)' % (VAL, VAL)),
-            ('C18 C05:error-is-explained',
-             'r.is_err() ==> this.writer().is_none() || %s || final(w).hard_faults > old(w).hard_faults || !final(w).files.contains_key(%s) || !old(w).files.contains_key(%s)' % (BADK, VAL, VAL)),
-        ]
-        d.contract(requires=req, ensures=ens)
-        d.thread(['this . maybe_sync_path', 'this . set_impl', 'this . put_impl', 'this . finalize_tempfile'])
+        d.contract(**wcontract('this'))
+        d.thread(['this . maybe_sync_path', 'this . set_impl', 'this . put_impl', 'this . finalize_tempfile', 'this . touch', 'this . get'])
         if variant == 'path':
             d.insert_after('this . maybe_sync_path ( value ) ? ;', '\n            proof { if valid_key(str_bytes(key.name)) { lemma_value_ok_after_sync(*old(w), *w, pv(value), str_bytes(key.name)); } }')
         else:
             d.insert_after('let path = this . finalize_tempfile ( value ) ? ;', '\n            proof { if valid_key(str_bytes(key.name)) { lemma_value_ok_after_finalize(*old(w), *w, path.pathv(), str_bytes(key.name), this.syncs()); } }')
-        u.text('}\n')
     weave_get_or_update(u, INV, BADK)
     u.text('}\n')
 
@@ -767,7 +799,7 @@ pub fn opt_arc_as_ref<T: ?Sized>(o: &Option<Arc<T>>) -> (r: Option<&T>)
     im = u.item('src/stack.rs', ['impl Cache'])
     im.drop_members_except({'get_or_update'})
     g = u.under_contract(im.sub(['fn get_or_update']), ['C13', 'C14', 'C19', 'C01', 'C03', 'C02', 'C16', 'C18', 'C11', 'C15'])
-    g.air = r'stack::Cache::get_or_update(::get_tempfile)?'
+    g.air = r'stack::(Cache|impl&%\d+)::get_or_update(::get_tempfile)?'
     g.add_param(W)
     g.replace("key : impl Into < Key < 'a > >", "key: Key<'a>", 'T11-into-identity')
     g.replace('key . into ( )', 'key', 'T11-into-identity')
@@ -799,7 +831,7 @@ pub fn opt_arc_as_ref<T: ?Sized>(o: &Option<Arc<T>>) -> (r: Option<&T>)
     g.thread(['self . read_side . get', '. seek', 'tempfile :: tempfile', 'tempfile :: tempfile_in', 'cache . temp_dir', 'NamedTempFile :: new_in', 'self . finalize_tempfile',
               'File :: open', 'cache . set', 'cache . put', 'cache . get', 'promote', 'std :: io :: copy', 'finalize_tempfile'])
     pr = u.under_contract(g.sub(['fn promote']), ['C13', 'C19', 'C01', 'C03', 'C02', 'C18', 'C11', 'C15', 'C16'])
-    pr.air = 'stack::Cache::get_or_update::promote'
+    pr.air = r'stack::impl&%\d+::get_or_update::promote'
     pr.add_param(W)
     NAME = 'str_bytes(key.name)'
     pr.contract(
